@@ -1950,6 +1950,9 @@ def _handle_assignment_ast(
 
     nodes: List[object] = []
     is_global_scope = scope == "setup" and depth == 0
+    # A name first assigned at the body level of the main ``while True:`` loop
+    # keeps its value between passes in Python, so it cannot be a local of loop().
+    is_main_loop_scope = scope == "loop" and depth == 1
 
     if isinstance(stmt, ast.AugAssign):
         if not isinstance(target, ast.Name):
@@ -2027,13 +2030,16 @@ def _handle_assignment_ast(
                 if not is_const or expr_uses_names:
                     init_expr = _default_value_for_type(cpp_type)
                     needs_runtime_assign = True
+            elif is_main_loop_scope:
+                init_expr = _default_value_for_type(cpp_type)
+                needs_runtime_assign = True
             decl = VarDecl(
                 name=target.id,
                 c_type=cpp_type,
                 expr=init_expr,
-                global_scope=is_global_scope,
+                global_scope=is_global_scope or is_main_loop_scope,
             )
-            if is_global_scope:
+            if decl.global_scope:
                 globals_list.append(decl)
                 if needs_runtime_assign:
                     if assign_as_expr_stmt:
@@ -2129,7 +2135,19 @@ def _handle_assignment_ast(
 
         for idx, name in enumerate(left_names):
             vars_env[name] = evaluated_values[idx]
-            if name not in declared:
+            if name not in declared and is_main_loop_scope:
+                declared.add(name)
+                cpp_type = _cpp_type(inferred_types[idx])
+                globals_list.append(
+                    VarDecl(
+                        name=name,
+                        c_type=cpp_type,
+                        expr=_default_value_for_type(cpp_type),
+                        global_scope=True,
+                    )
+                )
+                nodes.append(VarAssign(name=name, expr=tmp_names[idx]))
+            elif name not in declared:
                 declared.add(name)
                 nodes.append(
                     VarDecl(
@@ -2224,7 +2242,9 @@ def _make_promotion_decls(
             name=name,
             c_type=cpp_type,
             expr=_default_value_for_type(cpp_type),
-            global_scope=scope == "setup" and depth == 0,
+            global_scope=(scope == "setup" and depth == 0)
+            or (scope == "loop" and depth == 1),
+            hoisted=True,
         )
         if decl.global_scope:
             if all(existing.name != name for existing in globals_list):
@@ -2245,7 +2265,10 @@ def _rewrite_nodes(nodes: List[object], promoted: Set[str]) -> List[object]:
     rewritten: List[object] = []
     for node in nodes:
         if isinstance(node, VarDecl) and node.name in promoted:
-            rewritten.append(VarAssign(name=node.name, expr=node.expr))
+            # A declaration hoisted to this level by a nested block only carried
+            # the default value; the outer declaration replaces it.
+            if not node.hoisted:
+                rewritten.append(VarAssign(name=node.name, expr=node.expr))
             continue
         if isinstance(node, IfStatement):
             new_branches = [
@@ -2748,7 +2771,10 @@ def _parse_simple_lines(
                     rewritten: List[object] = []
                     for node in nodes:
                         if isinstance(node, VarDecl) and node.name in promoted_names:
-                            rewritten.append(VarAssign(name=node.name, expr=node.expr))
+                            if not node.hoisted:
+                                rewritten.append(
+                                    VarAssign(name=node.name, expr=node.expr)
+                                )
                             continue
                         if isinstance(node, IfStatement):
                             new_branches = [
@@ -4380,12 +4406,16 @@ def parse(src: str) -> Program:
     ctx["_function_written"] = []
 
     i = 0
+    seen_main_loop = False
     while i < len(lines):
         raw = lines[i]
         text = _strip_inline_comment(raw).strip()
 
         if not text or text.startswith('#'):
             i += 1; continue
+
+        if seen_main_loop:
+            raise ValueError("statements after the main loop are unreachable")
 
         # early capture at top level as well
         m = RE_TARGET_CALL.match(text)
@@ -4413,6 +4443,7 @@ def parse(src: str) -> Program:
 
         # controls
         if _indent_of(raw) == 0 and RE_WHILE_TRUE.match(text):
+            seen_main_loop = True
             block, i = _collect_block(lines, i)
             # The body is parsed once and runs in every pass.
             _forget_names(ctx, _written_names(block))
